@@ -1126,6 +1126,9 @@ impl Sys {
         }
         ensure_soft!(self.sc, (snap1.clones - snap0.clones) as i64 == tracked, "C04", "clone-count", "clone() cloned {} tracked component values, the world owns {}", snap1.clones - snap0.clones, tracked);
         ensure_soft!(self.sc, snap1.z_live - snap0.z_live == z, "C04", "clone-count-zst", "clone() cloned {} zero-sized components, the world owns {}", snap1.z_live - snap0.z_live, z);
+        // Pad (global column 2) has no drop glue but an observable Clone
+        let plain: u64 = (0..NARCH).filter(|a| COLMAP[*a].contains(&2)).map(|a| m.order[a].len() as u64).sum();
+        ensure_soft!(self.sc, snap1.plain_clones - snap0.plain_clones == plain, "C04", "clone-count-plain", "clone() called Clone::clone {} times on a component type without drop glue, the world owns {} such values", snap1.plain_clones - snap0.plain_clones, plain);
         // C13: identical representation at the split.
         let d_src = dump_all(src);
         let d_cl = dump_all(&cl);
